@@ -26,20 +26,31 @@ Import ListNotations.
 Open Scope Z_scope.
 
 (* The refinement, for all histories, both modes, every TTL.  Which MMSIs expiry removes is taken from the DELETED
-   events of each step here (that they are the right ones is C13); C12_refinement_exact below closes the loop. *)
+   events of each step here (that they are the right ones is C13); C12_refinement_exact below closes the loop.
+   `trk_run_ok`: a history may feed the table through the public `insert_or_update()` (OpInsertOrUpdate), which does not
+   check the order of the timestamps; in ORDERED mode the caller must then not hand it a timestamp older than a track
+   (`op_ok`) -- otherwise the unchanged code itself leaves the table unsorted and its ordered-stream check compares with the
+   wrong track.  For histories without that operation `trk_run_ok` is just True (C12_ok_without_insert_or_update). *)
 Theorem C12_refinement : forall (V : Type) (nattrs : nat) (ttl : option Z) (ordered : bool) (h : list (trk_op V)) (m : Z),
+  trk_run_ok nattrs (trk_init ttl ordered) h ->
   let run := trk_run nattrs (trk_init ttl ordered) h in
   abs_get (fst run) m = sp_track_of nattrs m (sp_run ordered [] (spec_history h (snd run))).
-Proof. exact (fun V nattrs ttl ordered h m => @refinement V nattrs ttl ordered h m). Qed.
+Proof. exact (fun V nattrs ttl ordered h m OK => @refinement V nattrs ttl ordered h OK m). Qed.
 Print Assumptions C12_refinement.
 
 (* The same against the specification that computes expiry itself (every track whose age has reached the TTL, and
    no other, is removed by update()/cleanup()): no information flows from the implementation into the specification. *)
 Theorem C12_refinement_exact : forall (V : Type) (nattrs : nat) (ttl : option Z) (ordered : bool) (h : list (trk_op V)) (m : Z),
+  trk_run_ok nattrs (trk_init ttl ordered) h ->
   abs_get (fst (trk_run nattrs (trk_init ttl ordered) h)) m
   = sp_track_of nattrs m (sp_run_exact ttl ordered (map abs_op h)).
-Proof. exact (fun V nattrs ttl ordered h m => @refinement_exact V nattrs ttl ordered h m). Qed.
+Proof. exact (fun V nattrs ttl ordered h m OK => @refinement_exact V nattrs ttl ordered h OK m). Qed.
 Print Assumptions C12_refinement_exact.
+
+Theorem C12_ok_without_insert_or_update : forall (V : Type) (nattrs : nat) (h : list (trk_op V)) (st : trk_tracker V),
+  (forall now msg ts, ~ In (OpInsertOrUpdate now msg ts) h) -> trk_run_ok nattrs st h.
+Proof. exact (fun V => @run_ok_without_insert V). Qed.
+Print Assumptions C12_ok_without_insert_or_update.
 
 (* Exactly one track per MMSI: the MMSIs of the tracks are pairwise different, every track is found under its own
    MMSI, and what get_track(m) returns is a track of the table with mmsi = m and the full attribute list. *)
@@ -107,3 +118,22 @@ Example C12_nonvacuous_reconfigured :
   sp_track_of 1 111 (sp_run_exact (Some 100) true (map abs_op h)) = None /\
   sp_track_of 1 222 (sp_run_exact (Some 100) true (map abs_op h)) = Some (mkSpTrack 5 [Some 6]).
 Proof. vm_compute. repeat split. Qed.
+
+(* non-vacuity with the public insert_or_update(): an unordered tracker fed through it (no ordering rule, no expiry: the
+   stale 111 stays until the next cleanup()); the history satisfies trk_run_ok (unordered mode: nothing to respect) *)
+Example C12_nonvacuous_insert_or_update :
+  let h := [OpInsertOrUpdate 50 (mkMsg 111 [MPresent (Some 5)]) (Some 4);
+            OpInsertOrUpdate 50 (mkMsg 222 [MPresent (Some 6)]) (Some 2);
+            OpInsertOrUpdate 50 (mkMsg 111 [MPresent (Some 7)]) (Some 3);
+            OpInsertOrUpdate 50 (mkMsg 111 [MPresent None]) None;
+            OpCleanup 60] in
+  let run := trk_run 1 (trk_init (Some 20) false) h in
+  trk_run_ok 1 (trk_init (Some 20) false) h /\
+  map (@r_exn Z) (snd run) = [None; None; Some (Py ValueError); None; None] /\
+  trk_tracks (fst run) = [mkTrack 111 [Some 5] 50] /\
+  sp_track_of 1 111 (sp_run_exact (Some 20) false (map abs_op h)) = Some (mkSpTrack 50 [Some 5]) /\
+  sp_track_of 1 222 (sp_run_exact (Some 20) false (map abs_op h)) = None.
+Proof.
+  split; [|vm_compute; repeat split].
+  simpl. repeat split; intros [X _]; discriminate.
+Qed.
